@@ -58,7 +58,8 @@ def exec_desc(rec):
     e = rec.execs[-1]
     return ",".join(["alive" if e["alive"] else "gone", "shut" if e["shutdown"] else "open",
                      e["broken"][0] if e["broken"] else "ok"]
-                    + (["kw"] if e["kill_workers"] else []))
+                    + (["kw"] if e["kill_workers"] else [])
+                    + (["latespawn"] if any(sp.get("after_break") for sp in rec.spawn_log) else []))
 
 
 def user_desc(rec):
